@@ -72,6 +72,15 @@ type c09List []string
 
 func (l *c09List) UnmarshalParams(vs []string) error { *l = append(c09List(nil), vs...); return nil }
 
+// narrow numeric fields: text that does not fit the field's width is an error (400), never a wrapped number
+type c09F struct {
+	Age   uint8   `query:"age" form:"age" param:"age" header:"X-Age"`
+	Port  uint16  `query:"port" form:"port"`
+	Delta int8    `query:"delta" form:"delta"`
+	Ages  []uint8 `query:"ages" form:"ages"`
+	Name  string  `query:"name"`
+}
+
 type c09E struct {
 	c09Embedded `query:"emb"` // a tag on an anonymous struct field is an error as soon as query data is bound
 	Alias       c09Str        `query:"alias" form:"alias" header:"X-Alias"`
@@ -100,14 +109,44 @@ func c09TypeSx(t reflect.Type) Sx {
 		}
 		return L(I(2), L(fs...))
 	case reflect.Slice:
-		if t.Elem().Kind() == reflect.Int {
-			return L(I(1), I(1))
-		}
-		return L(I(1), I(0))
-	case reflect.Int:
-		return L(I(0), I(1))
+		return L(I(1), I(c09KindCode(t.Elem().Kind())))
+	case reflect.Int, reflect.Uint8, reflect.Uint16, reflect.Int8:
+		return L(I(0), I(c09KindCode(t.Kind())))
 	}
 	return L(I(0), I(0)) // string, bool (bool fields carry no source tags in the shapes)
+}
+
+func c09KindCode(k reflect.Kind) int {
+	switch k {
+	case reflect.Int:
+		return 1
+	case reflect.Uint8:
+		return 2
+	case reflect.Uint16:
+		return 3
+	case reflect.Int8:
+		return 4
+	}
+	return 0
+}
+
+// c09Fits: does the decimal text fit the numeric kind (the empty text stands for 0)
+func c09Fits(k reflect.Kind, v string) bool {
+	if v == "" {
+		return true
+	}
+	var err error
+	switch k {
+	case reflect.Int:
+		_, err = strconv.ParseInt(v, 10, 64)
+	case reflect.Int8:
+		_, err = strconv.ParseInt(v, 10, 8)
+	case reflect.Uint8:
+		_, err = strconv.ParseUint(v, 10, 8)
+	case reflect.Uint16:
+		_, err = strconv.ParseUint(v, 10, 16)
+	}
+	return err == nil
 }
 
 func c09Preset(v reflect.Value) {
@@ -123,8 +162,10 @@ func c09Preset(v reflect.Value) {
 			c09Preset(f)
 		case reflect.String:
 			f.SetString("PRESET")
-		case reflect.Int:
+		case reflect.Int, reflect.Int8:
 			f.SetInt(-7)
+		case reflect.Uint8, reflect.Uint16:
+			f.SetUint(77)
 		}
 	}
 }
@@ -172,8 +213,10 @@ func c09Collect(v reflect.Value, pre []int, out *[]Sx, flat map[string][]string)
 			continue
 		case reflect.String:
 			changed, vals = f.String() != "PRESET", []string{f.String()}
-		case reflect.Int:
+		case reflect.Int, reflect.Int8:
 			changed, vals = f.Int() != -7, []string{strconv.FormatInt(f.Int(), 10)}
+		case reflect.Uint8, reflect.Uint16:
+			changed, vals = f.Uint() != 77, []string{strconv.FormatUint(f.Uint(), 10)}
 		case reflect.Bool:
 			changed, vals = f.Bool(), []string{"true"}
 		case reflect.Slice:
@@ -233,14 +276,17 @@ func c09Expect(t reflect.Type, pre []int, sources []map[string][]string, srcIdx 
 			if !okv || len(vals) == 0 {
 				continue
 			}
-			isInt := ft.Kind() == reflect.Int || ft.Kind() == reflect.Slice && ft.Elem().Kind() == reflect.Int
+			nk := ft.Kind()
+			if nk == reflect.Slice {
+				nk = ft.Elem().Kind()
+			}
 			use := vals
 			if ft.Kind() != reflect.Slice {
 				use = vals[:1]
 			}
-			if isInt {
+			if c09KindCode(nk) != 0 {
 				for _, v := range use {
-					if _, err := strconv.ParseInt(v, 10, 64); err != nil {
+					if !c09Fits(nk, v) {
 						*bad = true
 					}
 				}
@@ -261,14 +307,16 @@ func keysOfAny(d map[string]interface{}) []string {
 
 func genC09(rng *rand.Rand, n int, emit func(Case), dist map[string]int) {
 	e := echo.New()
-	shapes := []func() interface{}{func() interface{} { return &c09A{} }, func() interface{} { return &c09B{} }, func() interface{} { return &c09C{} }, func() interface{} { return &c09D{} }, func() interface{} { return &c09E{} }}
+	shapes := []func() interface{}{func() interface{} { return &c09A{} }, func() interface{} { return &c09B{} }, func() interface{} { return &c09C{} }, func() interface{} { return &c09D{} }, func() interface{} { return &c09E{} }, func() interface{} { return &c09F{} }}
 	keyPool := []string{"id", "ID", "Id", "name", "Name", "NAME", "admin", "Admin", "role", "Role", "secret", "tags", "Tags", "city", "City", "zip", "Zip", "plain", "Plain",
-		"token", "X-Token", "level", "Level", "owner", "Owner", "nums", "hidden", "Hidden", "q", "Q", "mixed", "Mixed", "count", "Count", "alias", "Alias", "X-Alias", "list", "List", "emb", "pid", "Pid", "pname", "ptags", "PTags", "X-Pid", "X-Pname", "X-Count", "other", "Addr", "addr.city", "c09Embedded", "Token", "", "", " ", "id[]", "Id[]", "name[]", "tags[]", "nums[]", "X-Token[]", "q[]"}
+		"token", "X-Token", "level", "Level", "owner", "Owner", "nums", "hidden", "Hidden", "q", "Q", "mixed", "Mixed", "count", "Count", "age", "Age", "X-Age", "port", "delta", "ages", "alias", "Alias", "X-Alias", "list", "List", "emb", "pid", "Pid", "pname", "ptags", "PTags", "X-Pid", "X-Pname", "X-Count", "other", "Addr", "addr.city", "c09Embedded", "Token", "", "", " ", "id[]", "Id[]", "name[]", "tags[]", "nums[]", "X-Token[]", "q[]"}
 	vals := func(key string, k int) []string {
 		var out []string
 		for i := 0; i < k; i++ {
 			lk := strings.ToLower(key)
-			if lk == "id" || lk == "zip" || lk == "level" || lk == "nums" || lk == "count" || lk == "pid" || lk == "x-pid" || lk == "x-count" {
+			if lk == "age" || lk == "x-age" || lk == "port" || lk == "delta" || lk == "ages" {
+				out = append(out, []string{"0", "7", "127", "128", "255", "256", "300", "-1", "-128", "-129", "65535", "65536", "70000", "4294967296", "x", "1x"}[rng.Intn(16)])
+			} else if lk == "id" || lk == "zip" || lk == "level" || lk == "nums" || lk == "count" || lk == "pid" || lk == "x-pid" || lk == "x-count" {
 				v := strconv.Itoa(1 + rng.Intn(900))
 				if rng.Intn(25) == 0 {
 					v = "x" + v // malformed number
